@@ -20,7 +20,7 @@ try:
     env = dict(os.environ, VERIF_REPO=wt, VERIF_OUT=out, VERIF_NO_EXTRAS='1', VERIF_CACHE=os.environ.get('VERIF_CACHE') or os.path.join(V, 'build', 'cache'))
     for pid in pids:
         t0 = time.time()
-        r = subprocess.run([os.path.join(V, 'check'), pid, '--jobs', '8'], capture_output=True, text=True, env=env, cwd=V)
+        r = subprocess.run([os.path.join(V, 'check'), pid, '--jobs', os.environ.get('VERIF_SEED_JOBS', '8')], capture_output=True, text=True, env=env, cwd=V)
         lines = [l for l in r.stdout.split('\n') if l.startswith(('VIOLATION', '  failed obligation', '  clause', 'UNDECIDED', 'PASS', 'FAIL', 'KNOWN'))]
         res[pid] = dict(exit=r.returncode, lines=lines[:30], wall_s=round(time.time() - t0, 1))
         print(pid, 'exit', r.returncode); print('\n'.join(lines[:12]))
